@@ -127,3 +127,161 @@ Check C01_dec_close_refuted :
   exists gd ge, gain_of dec w_big 1 = Some gd /\ gain_of exact w_big 1 = Some ge /\
                 (q 1 1000000000 < gd - ge)%Qc.
 Print Assumptions C01_dec_close_refuted.
+
+(* ======================================================================
+   When does rounding NOT matter?  (Proofs/DecTransfer.v)
+
+   Transfer principle.  [arith_le A B]: every operation that succeeds in A
+   returns the same value in B; [op_only A]: the operators of A never reject
+   and panic only with PanicOverflow / PanicDivZero.  Then EVERY function of
+   the ledger model - and so the whole run - returns in B what it returns in
+   A (every row, every rejection, every panic of a constrained-decimal
+   constructor, assertion or missing entry: those depend only on the values),
+   unless A's run ended with a failure of one of A's own operators
+   ([opstopb o = true]); and even then the rows A emitted are a prefix of
+   the rows of B. *)
+From ACB Require Import Model.App Proofs.DecTransfer Proofs.DecCorollaries.
+Local Close Scope Z_scope.
+
+Theorem C01_transfer_principle : forall A B init txs ds o,
+  arith_le A B -> op_only A ->
+  run A init txs = (ds, o) -> opstopb o = false -> run B init txs = (ds, o).
+Proof. exact DecTransfer.transfer_principle. Qed.
+Check C01_transfer_principle : forall A B init txs ds o,
+  arith_le A B -> op_only A ->
+  run A init txs = (ds, o) -> opstopb o = false -> run B init txs = (ds, o).
+Print Assumptions C01_transfer_principle.
+
+Theorem C01_transfer_prefix : forall A B init txs ds o,
+  arith_le A B -> op_only A ->
+  run A init txs = (ds, o) -> exists tl o', run B init txs = (ds ++ tl, o').
+Proof. exact DecTransfer.transfer_prefix. Qed.
+Check C01_transfer_prefix : forall A B init txs ds o,
+  arith_le A B -> op_only A ->
+  run A init txs = (ds, o) -> exists tl o', run B init txs = (ds ++ tl, o').
+Print Assumptions C01_transfer_prefix.
+
+(* the same for the application pipeline (sorting, per-security split,
+   global-split expansion: Model/App.v), which is what the correspondence
+   check runs *)
+Theorem C01_transfer_principle_app : forall A B inits rows l,
+  arith_le A B -> op_only A ->
+  run_app A inits rows = Ok l -> forallb sec_ok l = true -> run_app B inits rows = Ok l.
+Proof. exact DecTransfer.transfer_principle_app. Qed.
+Check C01_transfer_principle_app : forall A B inits rows l,
+  arith_le A B -> op_only A ->
+  run_app A inits rows = Ok l -> forallb sec_ok l = true -> run_app B inits rows = Ok l.
+Print Assumptions C01_transfer_principle_app.
+
+(* [rep]: exact arithmetic that refuses (PanicOverflow) every result that
+   rust_decimal would have to round.  It refines both arithmetics, and one of
+   its operations succeeds exactly on the decimals with at most 28 places and
+   a 96-bit mantissa. *)
+Theorem C01_rep_refines_exact_and_dec : arith_le rep exact /\ arith_le rep dec /\ op_only rep.
+Proof. exact DecTransfer.rep_refines_both. Qed.
+Check C01_rep_refines_exact_and_dec : arith_le rep exact /\ arith_le rep dec /\ op_only rep.
+Print Assumptions C01_rep_refines_exact_and_dec.
+
+Theorem C01_rep_succeeds_iff_representable : forall x : Qc,
+  rep_res x = Ok x <->
+  exists m s, (s <= 28)%nat /\ (Z.abs m <= max_mant)%Z /\ (this x == m # p10 s)%Q.
+Proof. exact DecTransfer.rep_res_iff. Qed.
+Check C01_rep_succeeds_iff_representable : forall x : Qc,
+  rep_res x = Ok x <->
+  exists m s, (s <= 28)%nat /\ (Z.abs m <= max_mant)%Z /\ (this x == m # p10 s)%Q.
+Print Assumptions C01_rep_succeeds_iff_representable.
+
+(* On every history all of whose exact intermediate values are 28-place /
+   96-bit decimals ([run rep] does not stop on an operator failure) the
+   ROUNDED ledger IS the EXACT ledger: every row, every rejection, every site
+   panic.  All exact-arithmetic theorems apply verbatim to the real
+   arithmetic there. *)
+Theorem C01_dec_equals_exact_when_representable : forall init txs ds o,
+  run rep init txs = (ds, o) -> opstopb o = false ->
+  run dec init txs = (ds, o) /\ run exact init txs = (ds, o).
+Proof. exact DecTransfer.dec_equals_exact_when_representable. Qed.
+Check C01_dec_equals_exact_when_representable : forall init txs ds o,
+  run rep init txs = (ds, o) -> opstopb o = false ->
+  run dec init txs = (ds, o) /\ run exact init txs = (ds, o).
+Print Assumptions C01_dec_equals_exact_when_representable.
+
+Theorem C01_app_dec_equals_exact_when_representable : forall inits rows l,
+  run_app rep inits rows = Ok l -> forallb sec_ok l = true ->
+  run_app dec inits rows = Ok l /\ run_app exact inits rows = Ok l.
+Proof. exact DecTransfer.app_dec_equals_exact_when_representable. Qed.
+Check C01_app_dec_equals_exact_when_representable : forall inits rows l,
+  run_app rep inits rows = Ok l -> forallb sec_ok l = true ->
+  run_app dec inits rows = Ok l /\ run_app exact inits rows = Ok l.
+Print Assumptions C01_app_dec_equals_exact_when_representable.
+
+(* in any case the rows emitted before the first non-representable value are
+   rows of both ledgers *)
+Theorem C01_rep_rows_are_common_prefix : forall init txs ds o,
+  run rep init txs = (ds, o) ->
+  exists tld od tle oe, run dec init txs = (ds ++ tld, od) /\ run exact init txs = (ds ++ tle, oe).
+Proof. exact DecTransfer.rep_rows_are_common_prefix. Qed.
+Check C01_rep_rows_are_common_prefix : forall init txs ds o,
+  run rep init txs = (ds, o) ->
+  exists tld od tle oe, run dec init txs = (ds ++ tld, od) /\ run exact init txs = (ds ++ tle, oe).
+Print Assumptions C01_rep_rows_are_common_prefix.
+
+(* C01 itself for the rounded arithmetic, on such histories *)
+Theorem C01_dec_refines_spec_when_representable : forall init txs ds o,
+  run rep init txs = (ds, o) -> opstopb o = false ->
+  Forall (fun t => valid_tx t = true) txs ->
+  run dec init txs = (ds, o) /\
+  map obs_of ds = spec_rows (spec_init init) (effective ds).
+Proof. exact DecCorollaries.dec_refines_spec_when_representable. Qed.
+Check C01_dec_refines_spec_when_representable : forall init txs ds o,
+  run rep init txs = (ds, o) -> opstopb o = false ->
+  Forall (fun t => valid_tx t = true) txs ->
+  run dec init txs = (ds, o) /\
+  map obs_of ds = spec_rows (spec_init init) (effective ds).
+Print Assumptions C01_dec_refines_spec_when_representable.
+
+(* Non-vacuity: seven rows, two affiliates, a USD purchase, a sale at a loss
+   of 5 of 10 shares followed within 30 days by a 5-for-2 split (finite factor
+   2.5) and a repurchase of 4 (1.6 shares before the split): 32% of the loss
+   (-2.608) is superficial and denied, one adjustment row is generated, then a
+   second affiliate, a return of capital and a sale with a gain.  [run rep]
+   accepts all of it, so the rounded and the exact ledger coincide (8 rows). *)
+Local Open Scope Z_scope.
+Definition ex_rep : list tx := [
+  mk 100 (Buy (q 10 1) (q 3 2) (q 1 1) (q 13 10) (q 13 10)) default_aff;
+  mk 140 (Sell (q 5 1) (q 1 2) (q 1 4) (q 1 1) (q 1 1) None) default_aff;
+  mk 145 (Split (q 5 1) (q 2 1) false) default_aff;
+  mk 150 (Buy (q 4 1) (q 1 2) (q 0 1) (q 1 1) (q 1 1)) default_aff;
+  mk 300 (Buy (q 6 1) (q 2 1) (q 0 1) (q 1 1) (q 1 1)) spouse;
+  mk 310 (Roc (q 1 10) (q 1 1)) default_aff;
+  mk 400 (Sell (q 3 1) (q 3 1) (q 0 1) (q 1 1) (q 1 1) None) spouse
+].
+Example C01_rep_nonvacuous :
+  forallb valid_tx ex_rep = true /\
+  opstopb (snd (run rep None ex_rep)) = false /\ snd (run rep None ex_rep) = None /\
+  length (fst (run rep None ex_rep)) = 8%nat /\
+  map (fun d => this (denied_of d)) (fst (run rep None ex_rep))
+  = [0; (-326) # 125; 0; 0; 0; 0; 0; 0]%Q /\
+  run dec None ex_rep = run rep None ex_rep /\ run exact None ex_rep = run rep None ex_rep.
+Proof.
+  assert (Ho : opstopb (snd (run rep None ex_rep)) = false) by (vm_compute; reflexivity).
+  destruct (C01_dec_equals_exact_when_representable None ex_rep _ _
+              (surjective_pairing (run rep None ex_rep)) Ho) as [Hd He].
+  rewrite Hd, He, <- surjective_pairing. vm_compute. repeat split.
+Qed.
+
+(* ... and a history it refuses: 3 shares bought for 10 in all, one sold -
+   the per-share cost 10/3 is not a decimal; there the two ledgers do differ
+   (cost base 6.6666666666666666666666666666 against 20/3) - after the first
+   row, which they share by C01_rep_rows_are_common_prefix. *)
+Definition ex_thirds : list tx := [
+  mk 100 (Buy (q 3 1) (q 3 1) (q 1 1) (q 1 1) (q 1 1)) default_aff;
+  mk 200 (Sell (q 1 1) (q 5 1) (q 0 1) (q 1 1) (q 1 1) None) default_aff ].
+Example C01_rep_refuses_thirds :
+  snd (run rep None ex_thirds) = Some (SPanic PanicOverflow) /\
+  length (fst (run rep None ex_thirds)) = 1%nat /\
+  run dec None ex_thirds <> run exact None ex_thirds.
+Proof.
+  split; [vm_compute; reflexivity|]. split; [vm_compute; reflexivity|].
+  intros H. apply (f_equal (fun r => map (fun d => s_acb (d_post d)) (fst r))) in H.
+  vm_compute in H. discriminate H.
+Qed.
